@@ -154,6 +154,10 @@ class Session:
         ev = {"ev": "in", "t": self.now(), "line": line}
         if extra:
             ev.update(extra)
+        # any line whose first word is `isready` is an isready command (the engine dispatches on the first word), also when a
+        # session sends it as "garbage" without waiting for the answer: its readyok is then expected, not unsolicited
+        if line.split()[:1] == ["isready"] and not (extra or {}).get("go"):
+            ev["isready"] = True
         self.events.append(ev)
         try:
             self.p.stdin.write((line + "\n").encode("utf-8"))
